@@ -5,6 +5,7 @@ import (
 	"encoding/json"
 	"errors"
 	"fmt"
+	"math"
 	"os"
 	"runtime/debug"
 	"sort"
@@ -22,7 +23,8 @@ import (
 
 const checkOrder = "shutdown_order"
 
-var orderPool = []int{-2, -1, 0, 0, 1, 1, 3, 7}
+// small orders with ties, negatives and gaps plus the extremes callers use as "always last" / "always first" markers
+var orderPool = []int{-2, -1, 0, 0, 1, 1, 3, 7, -2, -1, 0, 1, 3, math.MinInt, math.MinInt + 1, math.MaxInt, math.MaxInt - 1}
 
 // wspec is the drawn description of one background worker.
 type wspec struct {
